@@ -37,6 +37,7 @@ RULE = ('case = (format in csv/tsv/pickle/json/jsonlines/jsonarrays/text; '
         'bytes equal those of TO(concatenation); no handle stays open. '
         'Non-trivial: the reference did not raise and some table has a data '
         'row. Distinct: by digest of the whole case.')
+STATES = 'format x target kind x encoding x sequence of operations'
 COMPONENTS = {
     'real': ['petl to*/append*/from* for csv, tsv, pickle, json, text; '
              'TextIOWrapper, codecs, csv, pickle, json, gzip, bz2; petl '
@@ -474,6 +475,9 @@ def run_case(case):
         probes['multi-op-history'] = 1
     return outcome('ok', digest=log.hexdigest(), probes=probes,
                    steps=len(case['history']), nontrivial=nontrivial,
+                   states=['%s:%s:%s:%s' % (fmt, kind, args.get('encoding'),
+                                            ''.join(h[0][0] for h in
+                                                    case['history']))],
                    extra={'group': fmt})
 
 
